@@ -52,6 +52,7 @@ Section TyInd.
   Hypothesis Htup : forall ts, Forall P ts -> P (TTup ts).
   Hypothesis Hmap : forall o kt, P kt -> forall vt, P vt -> P (TMap o kt vt).
   Hypothesis Hdc : forall c, P (TDC c).
+  Hypothesis Hwrap : forall t, P t -> P (TWrap t).
   Hypothesis Hunion : forall ts, Forall P ts -> P (TUnion ts).
 
   Fixpoint ty_ind' (t: ty) : P t :=
@@ -70,6 +71,7 @@ Section TyInd.
     | TTup ts => Htup ts (go ts)
     | TMap o kt vt => Hmap o kt (ty_ind' kt) vt (ty_ind' vt)
     | TDC c => Hdc c
+    | TWrap t' => Hwrap t' (ty_ind' t')
     | TUnion ts => Hunion ts (go ts)
     end.
 End TyInd.
@@ -131,8 +133,8 @@ Proof. unfold as_items. induction ys; simpl; [reflexivity | now rewrite IHys]. Q
 (* the generator's identity test does not depend on the holder's dialect support *)
 Lemma is_id_cp_hsup E N h1 h2 t : is_id (cp E N h1 t) = is_id (cp E N h2 t).
 Proof.
-  revert h1 h2. induction t as [| lk | | | t IHt | o t IHt | t IHt | ts IHts | o t1 IHt1 t2 IHt2 | c0 | us IHus] using ty_ind';
-    intros h1 h2; simpl; try reflexivity.
+  revert h1 h2. induction t as [| lk | | | t IHt | o t IHt | t IHt | ts IHts | o t1 IHt1 t2 IHt2 | c0 | tw IHw | us IHus] using ty_ind';
+    intros h1 h2; simpl; try reflexivity; try (now apply IHw).
   - unfold seq_expr. rewrite (IHt h1 h2). destruct (is_id (cp E N h2 t)); [| reflexivity].
     destruct (inN N o); [reflexivity |]. destruct (origin_eqb o OList); reflexivity.
   - unfold map_expr. rewrite (IHt1 h1 h2), (IHt2 h1 h2).
@@ -190,8 +192,8 @@ Section PackShare.
   Lemma pack_share_all : forall v, P_pack v.
   Proof.
     induction v as [z | | z | l | k l xs IH | k l kvs IH | c l fs IH] using lv_ind';
-      intros call N hsup t; induction t as [| lk | | | t' IHt | o t' IHt | t' IHt | ts IHts | o kt IHk vt IHv | c0 | us IHus] using ty_ind';
-      intros n Hc Ho Hn; try (simpl in Hc; discriminate Hc).
+      intros call N hsup t; induction t as [| lk | | | t' IHt | o t' IHt | t' IHt | ts IHts | o kt IHk vt IHv | c0 | tw IHw | us IHus] using ty_ind';
+      intros n Hc Ho Hn; try (simpl in Hc; discriminate Hc); try (apply IHw; auto; fail).
     (* VAtom *)
     - simpl. split; [reflexivity | lia].
     - apply P_id; auto.
@@ -412,11 +414,12 @@ Section UnpackShare.
   Lemma unpack_share_all : forall w, P_unpack w.
   Proof.
     induction w as [z | | z | l | k l xs IH | k l kvs IH | c l fs IH] using lv_ind';
-      intros t; induction t as [| lk | | | t' IHt | o t' IHt | t' IHt | ts IHts | o kt IHk vt IHv | c0 | us IHus] using ty_ind';
+      intros t; induction t as [| lk | | | t' IHt | o t' IHt | t' IHt | ts IHts | o kt IHk vt IHv | c0 | tw IHw | us IHus] using ty_ind';
       intros n Hc Ho Hn; try (simpl in Hc; discriminate Hc);
       try (apply U_id; auto; fail);
       try (cbn [cu]; rewrite ru_opt; apply IHt; auto; fail);
-      try (apply union_case; auto; fail).
+      try (apply union_case; auto; fail);
+      try (apply IHw; auto; fail).
     - simpl. split; [reflexivity | lia].
     - simpl. split; [reflexivity | lia].
     - simpl. split; [reflexivity | lia].
